@@ -526,6 +526,52 @@ def recursive_wiring(ctx, ev):
     R.check("C09-D4 recursive wiring", not late, "inherited attributes are final before children are constructed", mod=init.module,
             node=loop.node or init.node, function=fq, expected="no assignment to sign_script/kms_script/alg/context after the dependency loop", found=f"{sorted(late)}")
 
+    # precedence of the sources of each inherited setting, decided on the value the constructor leaves in the attribute: the node's
+    # own configuration entry wins, then the value handed down by the parent, and only a node that has neither falls back to the
+    # environment (scripts).  Evaluated on the decision table (entry present? x handed down? x each environment variable set?).
+    R.rule("C09-D4c precedence of own, inherited and environment settings", 4, "own configuration entry > value inherited from the parent > environment fallback")
+    from itertools import product as _product
+    from sa.teval import teval as _teval, Unknown as _Unknown
+    for attr, par in (("sign_script", "sign_script"), ("kms_script", "kms_script"), ("alg", "algorithm"), ("context", "context")):
+        finals = {o.heap[(SELF, attr)] for o in iouts if (SELF, attr) in o.heap}
+        if len(finals) != 1:
+            raise AnalysisError(f"{fq}: final value of self.{attr} not recognised ({len(finals)} forms)")
+        term = next(iter(finals))
+        keys = {s_.args[0].v for s_ in subterms(term) if isinstance(s_, App) and s_.op in ("in", "not in") and isinstance(s_.args[0], Const)
+                and s_.args[1] == P("envelope_json")}
+        keys |= {s_.args[1].v for s_ in subterms(term) if isinstance(s_, App) and s_.op in ("idx", "meth:get") and len(s_.args) >= 2 and s_.args[0] == P("envelope_json")
+                 and isinstance(s_.args[1], Const)}
+        envs = sorted({s_ for s_ in subterms(term) if isinstance(s_, App) and s_.op in ("call:os.environ.get", "call:os.getenv")}, key=repr)
+        envs += sorted({s_ for s_ in subterms(term) if isinstance(s_, App) and s_.op == "idx" and repr(s_.args[0]).endswith("os.environ>")}, key=repr)
+        if len(keys) != 1:
+            R.fail("C09-D4c precedence of own, inherited and environment settings", f"self.{attr}", mod=init.module, node=init.node, function=fq,
+                   expected=f"self.{attr} = the node's own configuration entry when present, else the inherited value", found=f"configuration keys read: {sorted(keys)}; value {repr(term)[:160]}", key_extra=attr)
+            continue
+        key = next(iter(keys))
+        enums = [s_ for s_ in subterms(term) if isinstance(s_, App) and s_.op == "enum_by_value"]
+        bad = None
+        for has_key, given, *envset in _product((True, False), (True, False), *[(True, False)] * len(envs)):
+            cfg = {"key-name": "k", "key-id": "1", **({key: "OWN"} if has_key else {})}
+            env_ = {"param:envelope_json": cfg, "param:" + par: "INHERITED" if given else None, P("envelope_json"): cfg, P(par): "INHERITED" if given else None}
+            for e_, on in zip(envs, envset):
+                env_[e_] = "ENV" if on else None
+            for en_ in enums:
+                env_[en_] = "OWN"
+            want = "OWN" if has_key else ("INHERITED" if given else None)
+            if want is None:
+                continue
+            try:
+                got = _teval(term, env_)
+            except _Unknown as e:
+                raise AnalysisError(f"{fq}: final value of self.{attr} not evaluable: {e}")
+            if got != want:
+                bad = (has_key, given, dict(zip([repr(e_)[-40:] for e_ in envs], envset)), got)
+                break
+        R.check("C09-D4c precedence of own, inherited and environment settings", bad is None, f"self.{attr}", mod=init.module, node=init.node, function=fq,
+                expected=f"'{key}' of the node's configuration when present, else the value handed down by the parent; the environment only when there is neither",
+                found=f"own entry {'present' if bad[0] else 'absent'}, inherited value {'given' if bad[1] else 'None'}, environment {bad[2]}: self.{attr} = {bad[3]!r}" if bad else "",
+                key_extra=attr)
+
     R.rule("C09-D4b own key, bottom-up, same name", 5, "the node signs with its own key; dependencies are signed and re-embedded before the node signs")
     rs = repo.func(CMD, "RecursiveSigner.recursive_sign")
     # private helpers of the class (the signing step) are followed, so that the call of the signer is seen wherever it is written
